@@ -18,7 +18,7 @@ P = {
  "C02": ("Theorems in Properties/C02.v about Model/Printer.v (the transcription of jsontodsl.go): the printer succeeds exactly on expressible rewrites, and (lossless) the text it writes is the canonical rendering of a grammatical parse tree whose denotation — also through the listener's rewrite stack — is the input rewrite up to [normalize] (direct assignment hoisted, one-operand operators collapsed) with exactly the relation's type restrictions; the Coq specification itself (carriable/expressible/normalize) is evaluated by the extracted model on every relation and compared with the implementation's re-parsed output; correspondence of the printer model with both printer paths byte for byte, "
          "an independent specification (count/first-position, normalisation) as oracle on random models and on every rewrite tree up to 5/7 nodes, and parse-back of every output.",
          "Not mechanised: parse(lex(render d)) = d (observed). Domain of the statement: carriable models (what a DSL document can express at all); degenerate shapes are correspondence-only."),
- "C03": ("Theorems in Properties/C03.v about the listener model (rewrite-stack discipline = denotation of the parse tree); token streams of Model/Lexer.v against the generated Go lexer, "
+ "C03": ("Theorems in Properties/C03.v about the listener model (rewrite-stack discipline = denotation of the parse tree) and the parser model (everything it returns is grammatical; conversely every grammatical relation definition is returned for its canonical token sequence at any nesting depth — parser exactness); token streams of Model/Lexer.v against the generated Go lexer, "
          "models against the implementation, and the implementation against the model written, for generated syntax trees under an independent layout renderer.",
          "ANTLR semantics assumed as stated in Model/Lexer.v / Parser.v; error recovery not modelled."),
  "C04": ("Faithful Coq transcription of the builder and of AssignWeights with the depth-first start order as explicit argument (Model/WGraph.v, WWeights.v), run against the implementation (hooked to take the same order) on every model; "
@@ -31,11 +31,11 @@ P = {
  "C07": ("Coq transcription of TransformModuleFilesToModel (Model/Merge.v) over the parser model; theorems in Properties/C07.v, among them THE EQUIVALENCE: for every list of module files as the parser delivers them (decidable well-formedness, evaluated per run) merge succeeds iff the list is conflict-free in the order-free sense of Spec/MergeSpec.v, and on success returns the declared types in file order with exactly the contributed relation names and the attributed conditions (Proofs/MergeIff.v); the decidable form of the specification is evaluated by the extracted model on every generated set and compared with the implementation's verdict; correspondence on generated module sets with a catalogue of injected conflicts; "
          "conflict-freedom and the exact attributed union computed from the generator's syntax trees as oracle.",
          "Syntax errors inside files are compared as opaque entries."),
- "C08": ("Theorems in Properties/C08.v (panic-freedom of the modelled control flow); PANIC and TIMEOUT are observables of every harness call; mutation fuzzing of the corpus, degenerate protobuf models, damaged module sets and manifests; scaled inputs timed.",
+ "C08": ("Theorems in Properties/C08.v (panic-freedom of the modelled control flow: printer, listener, ParseDSL, both graph stages, fga.mod, and the module merge on parser-delivered files); PANIC and TIMEOUT are observables of every harness call; mutation fuzzing of the corpus, degenerate protobuf models, damaged module sets and manifests; scaled inputs timed.",
          "Partial by nature: a Gallina model cannot exhibit a Go panic it does not name nor running time; the quadratic bound is measured only. Known finding K-C08-formfeed."),
  "C09": ("Theorems in Properties/C09.v about the parser and listener models; every document of a catalogue of 13 structural violations injected at random sites of generated valid documents must be rejected by the implementation and by the model alike.",
          "ANTLR semantics assumed as in C03."),
- "C10": ("Theorems in Properties/C10.v about Model/WGraph.wbuild; the built graph of the implementation is compared with the extracted model (nodes, ordered edges, kinds, labels, conditions) and decoded against the model by an independent structure check; input model unchanged.",
+ "C10": ("Theorems in Properties/C10.v about Model/WGraph.wbuild (one node per label, one operator node per operator occurrence, computed-edge rule, totality, the built graph is unweighted with every edge filed under its source); the built graph of the implementation is compared with the extracted model (nodes, ordered edges, kinds, labels, conditions) and decoded against the model by an independent structure check; input model unchanged.",
          "Operator node names are canonicalised structurally (ULIDs are random)."),
  "C11": ("Same model as C04 (wildcard propagation transcribed); theorems in Properties/C11.v: on graphs without cycles, for every start order, the list of a node holds exactly the public types whose wildcard node is reachable (inductive reachability), each edge carries its target's set, and no list has duplicates; the executable form (spec_wildcards) is compared with the implementation's lists per run; wildcard lists of every node and edge against reachability of T:* nodes in the built graph, per explicit start order.",
          "Known finding K-WG-cycles delimits the unproved cyclic part."),
